@@ -259,7 +259,7 @@ theorem mergeRemoteState_winv (hU : Univ U) {cfg : Cfg} (hcfg : cfg.lit = 0) {cl
   | nil => exact h
   | cons m rest ih =>
     have hm := hms m (by simp)
-    exact ih (fun x hx => hms x (by simp [hx])) (deliver_spec hU hcfg now hnd hm).good (deliver_winv hU hcfg now hnd hm h)
+    exact ih (fun x hx => hms x (by simp [hx])) (notifyMsg_good hU hcfg now hnd hm).1 (notifyMsg_winv hU hcfg now hnd hm h)
 
 theorem wok_congr {nd nd' : Node Desc} {w : Watcher Desc} (ok : WOk nd w) (h1 : nd'.store = nd.store)
     (h2 : nd'.notifs = nd.notifs) : WOk nd' w :=
